@@ -4,7 +4,7 @@ from engine import gen
 
 SRC = REPO / "crates/sierradb-cluster/src/confirmation.rs"
 V, UNW = 4, 9
-INST = [("c08_history_3", 3, ("quick", "thorough"), 900), ("c08_history_4", 4, ("quick", "thorough"), 1500), ("c08_history_5", 5, ("thorough",), 3000),
+INST = [("c08_history_2", 2, ("quick", "thorough"), 600), ("c08_history_3", 3, ("quick", "thorough"), 900), ("c08_history_4", 4, ("quick", "thorough"), 1500), ("c08_history_5", 5, ("thorough",), 3000),
         ("c08_history_6", 6, ("thorough",), 3600)]
 
 
